@@ -31,8 +31,8 @@ impl ToTokens for HttpInitFragment {
       Method::PATCH => quote! { self.client.patch(url) },
       Method::HEAD => quote! { self.client.head(url) },
       _ => {
-        let m = format_ident!("reqwest::Method::{}", self.method.as_str());
-        quote! { self.client.request(#m, url) }
+        let m = format_ident!("{}", self.method.as_str());
+        quote! { self.client.request(reqwest::Method::#m, url) }
       }
     };
     tokens.extend(ts);
